@@ -47,7 +47,33 @@ def quick_jobs(rng: random.Random) -> list[dict]:
         for lvl in (1, 2):
             J.append(W.job('circuit', cs, ms, lvl, seed=rng.randrange(1000), tag=tag))
     J.append(W.job('unitary', None, model_spec(2, 'all', 'default'), 1, n=2, iseed=1, tag='utry'))
-    return known_jobs() + J
+    return known_jobs() + vendor_jobs() + placement_jobs() + J
+
+
+DEMO_SQ = dict(n=2, ops=[['h', [0], []], ['t', [1], []], ['cx', [0, 1], []], ['h', [1], []]])
+ASYM7 = [(0, 1), (0, 2), (1, 2), (2, 3), (3, 4), (3, 5), (3, 6)]      # triangle 0-1-2, tail 2-3, star around 3
+
+
+def placement_jobs() -> list[dict]:
+    """Machine wider than the circuit, coupling graph that is NOT vertex transitive (the qudits the mapper picks and the
+    qudits with the circuit's own indices have different neighbourhoods), level 3: every block is re-synthesised
+    against the sub-model of the physical qudits it is placed on."""
+    import numpy as np
+    r = np.random.default_rng(20240917)
+    ops = []
+    for a, b in [(0, 1), (1, 2), (0, 2)]:
+        for q in range(3):
+            ops.append(['u3', [q], [float(x) for x in r.uniform(-np.pi, np.pi, 3)]])
+        ops.append(['cx', [a, b], []])
+    for q in range(3):
+        ops.append(['u3', [q], [float(x) for x in r.uniform(-np.pi, np.pi, 3)]])
+    ms = dict(n=7, edges=[list(e) for e in ASYM7], gates=None, gs='default', shape='asym7')
+    return [W.job('circuit', dict(n=3, ops=ops), ms, 3, seed=1234, tag='placement-asym7-L3')]
+
+
+def vendor_jobs(classes=('rzry', 'h1like')) -> list[dict]:
+    """One run per vendor-like gate set (no general single-qudit gate; RZ without SX / RX; Quantinuum-like)."""
+    return [W.job('circuit', DEMO_SQ, model_spec(2, 'all', mc), 1, seed=1234, tag='vendor-' + mc) for mc in classes]
 
 
 def known_jobs() -> list[dict]:
@@ -162,6 +188,107 @@ def fmt(x) -> str:
     if isinstance(x, bool):
         return 'T' if x else 'F'
     return str(x)
+
+
+def predicate_constants(ctx: vf.Ctx, budget: float):
+    """The model-only predicates are evaluated by the LIVE predicate code for every configuration's gate set (that is
+    what the generated trees are checked with) and, independently, by their documented meaning; a disagreement is a
+    concrete gate set, confirmed through a real compile()."""
+    import gen_workflows as G
+    dis = G.constant_disagreements()
+    ctx.cov['predicate_constant_checks'] = 5 * len(G.model_classes())
+    for mc in G.model_classes():
+        ctx.case(('predicate-constants', mc), nontrivial=True)
+        ctx.count('predicate_constants_model')
+    if not dis:
+        return
+    ctx.cov['predicate_disagreements'] = dis
+    classes = sorted({d['model'] for d in dis if d['model'] in W.GATESETS})
+    jobs = vendor_jobs(classes)
+    hits = []
+
+    def on_result(i, r):
+        if judge(ctx, jobs[i], r, 'predicate %s disagrees with its documented meaning on this gate set' %
+                 [d['predicate'] for d in dis if d['model'] == jobs[i]['model']['gs']]):
+            hits.append(i)
+        return len(hits) >= 2
+    res = W.run_jobs(jobs, budget, on_result=on_result) if jobs else []
+    if not hits:
+        ctx.broken_obligation('a model-only predicate disagrees with its documented meaning (no failing compile() found)',
+                              repr(dis))
+
+
+def submodel_probe(ctx: vf.Ctx, count: int):
+    """Pass-level probe of ForEachBlockPass.run: for random placements on random (non-symmetric) graphs the sub-model
+    handed to each block must carry the machine graph restricted to placement[location] (this is what the abstract
+    semantics assumes of a block: `block_inits` keeps `cpl` relative to the placed qudits)."""
+    import asyncio
+    from bqskit.ir.circuit import Circuit
+    from bqskit.compiler.basepass import BasePass
+    from bqskit.compiler.machine import MachineModel
+    from bqskit.compiler.passdata import PassData
+    from bqskit.ir.gates import CircuitGate, CNOTGate, HGate
+    from bqskit.passes.control import foreach as fe
+
+    class Probe(BasePass):
+        async def run(self, circuit, data):
+            data['probe_edges'] = sorted(tuple(sorted(e)) for e in data.model.coupling_graph)
+            data['probe_n'] = data.model.num_qudits
+
+    class FakeRuntime:
+        def map(self, fn, *iters, **kw):
+            async def go():
+                return [await fn(*a) for a in zip(*iters)]
+            return go()
+    rng = ctx.rng
+    saved = fe.get_runtime
+    fe.get_runtime = lambda: FakeRuntime()
+    try:
+        for i in range(count):
+            n = rng.randint(3, 7)
+            w = rng.randint(2, min(4, n))
+            es = [tuple(e) for e in W.graph_edges(rng.choice(['rand', 'tree', 'star', 'line', 'rand']), n, rng)]
+            if i == 0:
+                n, w, es = 7, 3, list(ASYM7)
+            model = MachineModel(n, es)
+            placement = rng.sample(range(n), w) if i else [0, 2, 3]
+            circ = Circuit(w)
+            locs = []
+            for _ in range(rng.randint(1, 3)):
+                k = rng.randint(1, min(3, w))
+                loc = sorted(rng.sample(range(w), k))
+                inner = Circuit(k)
+                inner.append_gate(HGate(), 0)
+                if k > 1:
+                    inner.append_gate(CNOTGate(), (0, 1))
+                circ.append_gate(CircuitGate(inner, True), loc)
+                locs.append(loc)
+            data = PassData(circ)
+            data.model = model
+            data.placement = placement
+            key = ('submodel', n, tuple(es), tuple(placement), tuple(map(tuple, locs)))
+            ctx.case(key, nontrivial=placement != list(range(w)))
+            ctx.count('submodel_probe_' + ('identity' if placement == list(range(w)) else 'placed'))
+            try:
+                asyncio.run(fe.ForEachBlockPass(Probe()).run(circ, data))
+                bds = data[fe.ForEachBlockPass.key][-1]
+            except Exception as e:  # noqa
+                ctx.broken_obligation('ForEachBlockPass sub-model probe raised', repr(e))
+                return
+            edges = {tuple(sorted(e)) for e in es}
+            for bd in bds:
+                sub = bd['subnumbering']
+                loc = sorted(sub, key=lambda q: sub[q])
+                want = sorted(tuple(sorted((sub[a], sub[b]))) for a in loc for b in loc
+                              if a < b and tuple(sorted((placement[a], placement[b]))) in edges)
+                got = bd['probe_edges']
+                if got != want or bd['probe_n'] != len(loc):
+                    ctx.violation(dict(call='ForEachBlockPass.run', symptom='submodel_ignores_placement'),
+                                  dict(n=n, edges=es, placement=placement, location=loc, probe='submodel'), want, got,
+                                  'the sub-model handed to a block is not the machine graph restricted to the physical '
+                                  'qudits the block is placed on')
+    finally:
+        fe.get_runtime = saved
 
 
 def corpus_calls(ctx: vf.Ctx):
@@ -392,6 +519,8 @@ def run(ctx: vf.Ctx):
         W.theorem_failure_search(ctx, 'c02', 420 if ctx.quick() else 1200, judge, thorough_jobs)
     # ---- correspondence ---------------------------------------------------------------------
     corpus_calls(ctx)
+    submodel_probe(ctx, ctx.n(60, 600))
+    predicate_constants(ctx, 120 if ctx.quick() else 600)
     if ctx.extract_ok.get('wfcompat'):
         correspondence(ctx, ctx.n(400, 4000))
     # ---- supporting real-compile() search ------------------------------------------------------
@@ -417,6 +546,9 @@ def replay(ctx: vf.Ctx, data: dict):
         return
     if data.get('kind') == 'broken-obligation':
         run(ctx)
+        return
+    if isinstance(case, dict) and case.get('probe') == 'submodel':
+        submodel_probe(ctx, 5)
         return
     # correspondence / is_compatible cases
     if isinstance(case, dict) and 'placement' in case:
